@@ -39,7 +39,7 @@ def configs(tier, seed):
         if k in seen:
             continue
         seen.add(k)
-        if len(seen) % 2:
+        if len(seen) % (3 if tier == "quick" else 2):
             continue
         try:
             mm_, _ = M.build_map(base)
